@@ -309,6 +309,48 @@ if C_QUOTERS:
                  props=("C05", "C01", "C04", "C19"),
                  note="fast path (nothing to quote) is sound; writer initialised before and released after _do_quote"))
 
+# ---------------------------------------------------------------- the compiled unquoter (C06)
+C_UNQUOTERS = {}
+if C_QUOTERS:
+    try:
+        for _name, _kw in _unquoter_configs().items():
+            _inst = _PYX_MOD._Unquoter(**_kw)
+            C_UNQUOTERS[_name] = _inst
+            spec_unquote.INSTANCE_CFG[id(_inst)] = (_kw.get("ignore", ""), _kw.get("unsafe", ""), bool(_kw.get("qs", False)))
+            spec_unquote.INSTANCE_NAME[id(_inst)] = _name
+            _lib.EXTRA_PRIMS.append((_inst._quoter, "unquoter.inner_quoter", _lib.inner_requoter(False)))
+            _lib.EXTRA_PRIMS.append((_inst._qs_quoter, "unquoter.inner_qs_quoter", _lib.inner_requoter(True)))
+    except Exception as _e:      # the front end could not build the unquoter instances: obligations undecided
+        C_UNQUOTERS = {}
+
+
+def _c_unquoter_stream_result(ex, st, stream):
+    import z3
+    from pyvc import values as V
+    val = st.env["val"]
+    ex.oblige(st, "output-read:simulation-complete(G_p == len(val))", "inv-exit", st.ghost["p"].t == val.len(), None, {})
+    return V.fresh_str(st.ctx, "unquoted")
+
+
+if C_UNQUOTERS:
+    add(Contract("yarl._quoting_c_pyx:_Unquoter._do_unquote",
+                 [("self", CONST(*C_UNQUOTERS.values())), ("val", STR)],
+                 spec=None, spec_module=spec_unquote,
+                 loops={0: {"inv": ("0 <= idx and idx <= length and length == len(val) and G_k == 0 "
+                                    "and G_p == idx - 3 * buflen "
+                                    "and pending_ok(val, G_p, buffer[:buflen]) "
+                                    "and (changed != 0 or (G_same and buflen == 0))"),
+                            "lists": {"buffer": (4, 4)}, "enums": {"buflen": (0, 3)},
+                            "streams": ["ret"], "str_stream": True, "multi_token": True,
+                            "ghost": {"p": "0", "k": "0", "same": "True"},
+                            "step": "u_step(self, val, G_p)",
+                            "same": "unit_is_input(UNIT, val, G_p, CONSUMED)",
+                            "stream_result": _c_unquoter_stream_result}},
+                 post="(result is not val) or len(val) == 0 or (G_same and G_p == len(val))",
+                 props=("C06", "C05", "C19"),
+                 note="stream simulation of the compiled decoder against spec_unquote.u_step; buffer[0:buflen] is the "
+                      "held-back prefix; returning the argument itself only when nothing was changed"))
+
 _ALLQ = CONST(*PY_QUOTERS.values())
 add(Lemma(spec_quote.lemma_canonical_is_fixed, [("quoter", _ALLQ), ("B", BYTES), ("p", INT)],
           requires=spec_quote.requoting, props=("C03", "C04"),
